@@ -158,6 +158,48 @@ BubbleDew ==
                       ELSE IF E.kind = "bubble" THEN <<>> ELSE lastBubble
      /\ cnt' = BumpAll(cnt, {"bubble_dew"} \cup (IF r.ok THEN {"bubble_dew_ok"} ELSE {}) \cup (IF E.calibrated THEN {"bubble_dew_calibrated"} ELSE {}))
 
+\* what a successful flash owes to its specification, whatever the initial state was (a warm start from a result at
+\* other conditions included)
+FlashLaws(what, info, r, T, p, feed) ==
+  r.ok =>
+     /\ Report("C05.flash_specification_kept", <<what, info, r.v.T, r.v.p, l>>,
+               FEq(r.v.T, T) /\ FEq(r.l.T, T) /\ FClose(r.v.p, p, "1e-9", FAbs(p), "0"))
+     /\ Report("C05.flash_conserves_feed", <<what, info, r.v.N, r.l.N, l>>,
+               \A i \in 1..Len(feed) : /\ FClose(FAdd(r.v.N[i], r.l.N[i]), feed[i], "1e-12", FAbs(feed[i]), "0")
+                                       /\ FLe("0", r.v.N[i]) /\ FLe("0", r.l.N[i]))
+     /\ Report("C05.flash_phase_fraction", <<what, info, l>>, FLt("0", FSum(r.v.N)) /\ FLt("0", FSum(r.l.N)))
+
+\* PhaseDiagram::lle: npoints flashes of one feed along a line in T (p fixed) or p (T fixed), each warm-started from the
+\* previous result; points that fail are dropped.  Every returned state is a flash result AT ITS grid point, in order.
+GridPoint(k) == FAdd(E.min, FMul(FSub(E.max, E.min), FOfRatio(k - 1, E.npoints - 1)))
+FlashSweep ==
+  /\ Ev("FlashSweep")
+  /\ LET S == E.states
+         n == Len(S)
+         Var(s) == IF E.vary = "T" THEN s.v.T ELSE s.v.p
+         Fix(s) == IF E.vary = "T" THEN s.v.p ELSE s.v.T
+         \* index of the grid point a state sits on (0 if none)
+         At(s) == LET K == {k \in 1..E.npoints : FClose(Var(s), GridPoint(k), "1e-9", FAbs(GridPoint(k)), "0")} IN
+                  IF K = {} THEN 0 ELSE CHOOSE k \in K : TRUE
+         info == <<E.case, E.vary, E.fixed, E.min, E.max>>
+     IN
+     /\ Report("C05.sweep_points_on_grid_in_order", <<info, [k \in 1..n |-> Var(S[k])], l>>,
+               /\ n <= E.npoints
+               /\ \A k \in 1..n : At(S[k]) > 0
+               /\ \A k \in 1..(n - 1) : At(S[k]) < At(S[k + 1]))
+     /\ \A k \in 1..n :
+          LET r == [ok |-> TRUE, v |-> S[k].v, l |-> S[k].l]
+              T == IF E.vary = "T" THEN GridPoint(At(S[k])) ELSE E.fixed
+              p == IF E.vary = "T" THEN E.fixed ELSE GridPoint(At(S[k]))
+          IN At(S[k]) > 0 =>
+             /\ TwoPhase("C05", "flash sweep", <<info, k>>, r, TolFlash)
+             /\ Report("C05.flash_specification_kept", <<"sweep", info, k, r.v.T, r.v.p, l>>,
+                       /\ FClose(r.v.T, T, "1e-12", FAbs(T), "0") /\ FEq(r.v.T, r.l.T) /\ FClose(r.v.p, p, "1e-9", FAbs(p), "0"))
+             /\ Report("C05.flash_conserves_feed", <<"sweep", info, k, l>>,
+                       \A i \in 1..Len(E.feed) : FClose(FAdd(r.v.N[i], r.l.N[i]), E.feed[i], "1e-12", FAbs(E.feed[i]), "0"))
+  /\ cnt' = BumpAll(cnt, {"flash_sweeps", "flash_sweep_vary_" \o E.vary} \cup (IF Len(E.states) = E.npoints THEN {"flash_sweeps_complete"} ELSE {}))
+  /\ UNCHANGED lastBubble
+
 Flash ==
   /\ Ev("Flash")
   /\ LET r == E.res
@@ -166,15 +208,10 @@ Flash ==
      /\ (E.calibrated => Report("C05.found", <<E.case, "flash", E.grid, r, l>>, r.ok))
      /\ Report("C07.flash_splits_inside_envelope", <<info, r, l>>, r.ok \/ r.err # "NoPhaseSplit")
      /\ TwoPhase("C05", "flash", info, r, TolFlash)
-     /\ (r.ok =>
-          /\ Report("C05.flash_specification_kept", <<info, r.v.T, r.v.p, l>>,
-                    FEq(r.v.T, E.T) /\ FClose(r.v.p, E.p, "1e-9", FAbs(E.p), "0"))
-          /\ Report("C05.flash_conserves_feed", <<info, r.v.N, r.l.N, l>>,
-                    \A i \in 1..Len(E.feed) : /\ FClose(FAdd(r.v.N[i], r.l.N[i]), E.feed[i], "1e-12", FAbs(E.feed[i]), "0")
-                                              /\ FLe("0", r.v.N[i]) /\ FLe("0", r.l.N[i]))
-          /\ Report("C05.flash_phase_fraction", <<info, l>>, FLt("0", FSum(r.v.N)) /\ FLt("0", FSum(r.l.N))))
+     /\ FlashLaws("initial state: none", info, r, E.T, E.p, E.feed)
      /\ \A k \in 1..Len(E.guesses) :
           /\ TwoPhase("C05", "flash " \o E.guesses[k].guess, info, E.guesses[k].res, TolFlash)
+          /\ FlashLaws(E.guesses[k].guess, info, E.guesses[k].res, E.T, E.p, E.feed)
           /\ ((r.ok /\ E.guesses[k].res.ok) =>
                  Report("C12.flash_guess", <<info, E.guesses[k].guess, l>>,
                         /\ SameX(r.v, E.guesses[k].res.v.x, TolGuessFlash) /\ SameX(r.l, E.guesses[k].res.l.x, TolGuessFlash)
@@ -218,7 +255,7 @@ Stability ==
   /\ UNCHANGED lastBubble
 
 Init == l = 1 /\ cnt = NoCount /\ lastBubble = <<>>
-Next == /\ (PureVle \/ PureDiagram \/ Critical \/ CriticalPR \/ Spinodal \/ BubbleDew \/ Flash \/ FlashOutside \/ BinaryDiagram \/ Stability)
+Next == /\ (PureVle \/ PureDiagram \/ Critical \/ CriticalPR \/ Spinodal \/ BubbleDew \/ Flash \/ FlashSweep \/ FlashOutside \/ BinaryDiagram \/ Stability)
         /\ (l' > NRec => PrintT("STATS " \o ToJson(cnt')))
 TraceSpec == Init /\ [][Next]_vars
 ================================================================================
